@@ -33,6 +33,13 @@ func isEquals(flip bool) func(d *dataTreeNavigator, context Context, lhs *Candid
 			value = (rhs.Tag == "!!null")
 		} else if lhs.Kind == ScalarNode && rhs.Kind == ScalarNode {
 			value = matchKey(lhs.Value, rhs.Value)
+			if !value {
+				// numbers are equal when their values are, whatever their spelling (2 and 2.0, 0x10 and 16)
+				value = numbersEqual(lhs, rhs)
+			}
+		} else if lhs.Kind == rhs.Kind && (lhs.Kind == MappingNode || lhs.Kind == SequenceNode) {
+			// maps and sequences are equal when their contents are
+			value = recursiveNodeEqual(lhs, rhs)
 		}
 		log.Debugf("%v == %v ? %v", NodeToString(lhs), NodeToString(rhs), value)
 		if flip {
@@ -40,6 +47,24 @@ func isEquals(flip bool) func(d *dataTreeNavigator, context Context, lhs *Candid
 		}
 		return createBooleanCandidate(lhs, value), nil
 	}
+}
+
+func numbersEqual(lhs *CandidateNode, rhs *CandidateNode) bool {
+	lhsTag := lhs.guessTagFromCustomType()
+	rhsTag := rhs.guessTagFromCustomType()
+	if (lhsTag != "!!int" && lhsTag != "!!float") || (rhsTag != "!!int" && rhsTag != "!!float") {
+		return false
+	}
+	if lhsTag == "!!int" && rhsTag == "!!int" {
+		_, lhsNum, errLhs := parseInt64(lhs.Value)
+		_, rhsNum, errRhs := parseInt64(rhs.Value)
+		if errLhs == nil && errRhs == nil {
+			return lhsNum == rhsNum
+		}
+	}
+	lhsNum, errLhs := parseNumberAsFloat(lhsTag, lhs.Value)
+	rhsNum, errRhs := parseNumberAsFloat(rhsTag, rhs.Value)
+	return errLhs == nil && errRhs == nil && lhsNum == rhsNum
 }
 
 func notEqualsOperator(d *dataTreeNavigator, context Context, expressionNode *ExpressionNode) (Context, error) {
